@@ -24,6 +24,11 @@ import (
 // Start-up stream (C15, C16): runs the REAL DefaultFanController.Run on fans whose sysfs files are
 // virtual devices, with a real bbolt file, in virtual time (sleeps only advance the clock), and
 // stops each controller right after its first regulation cycle.
+//
+// `su.start` / `su.init` / `su.reset` / `su.together` report WHICH analysis steps happened (booleans);
+// `su.data` reports WHAT the analysis computed (stored PWM map, stored RPM curve, derived limits, device
+// registers), `su.poke` sets the device registers, `su.settle` runs the real waitForFanToSettle on a
+// scripted RPM input. Model counterpart: lean/Fan2go/Model/Analysis.lean via lean/Driver/StartupStream.lean.
 
 type suFan struct {
 	id      string
@@ -33,6 +38,14 @@ type suFan struct {
 	cfg     configuration.FanConfig
 	spinAt  int // device model: rpm = 0 below this pwm, else 10*pwm
 	evalSeq int64
+}
+
+// the device's physics: the RPM register follows the PWM register at every write event
+func (f *suFan) rpmOf(pwm int) int {
+	if pwm >= f.spinAt {
+		return 10 * pwm
+	}
+	return 0
 }
 
 var (
@@ -84,20 +97,23 @@ func suNewFan(a kv) *suFan {
 	f.dev.OnWrite = func(e string) {
 		suRecord(f.id, e)
 		// the device model: RPM follows the PWM register
-		if f.dev.Pwm >= f.spinAt {
-			f.dev.Rpm = 10 * f.dev.Pwm
-		} else {
-			f.dev.Rpm = 0
-		}
+		f.dev.Rpm = f.rpmOf(f.dev.Pwm)
 	}
 	if q := a.int("quant", 0); q > 1 {
 		f.dev.Resp = func(v int) int { return (v / q) * q }
+	}
+	if !a.bool("pwmread", true) {
+		// a fan whose PWM value cannot be read: Supports(FeaturePwmSensor) = false
+		f.dev.PwmRead = verifhook.ReadErrOther
 	}
 	touch(dir+"/pwm1", true)
 	verifhook.Bind(dir+"/pwm1", f.dev, verifhook.RegPwm)
 	verifhook.Bind(dir+"/pwm1_enable", f.dev, verifhook.RegMode)
 	if a.bool("hasrpm", true) {
 		verifhook.Bind(dir+"/fan1_input", f.dev, verifhook.RegRpm)
+	} else {
+		// a re-declared id must not keep the RPM input of its previous device
+		verifhook.Unbind(dir + "/fan1_input")
 	}
 	cfg := configuration.FanConfig{ID: id, NeverStop: a.bool("ns", false), Curve: "sucurve_" + id}
 	if a.bool("minmax", false) {
@@ -327,6 +343,90 @@ func init() {
 			// device registers of a fan (not part of the C15 model: used by C03 to see what a failed start left behind)
 			f := suFans[a.str("fan", "f1")]
 			return fmt.Sprintf("pwm=%d mode=%d", f.dev.Pwm, f.dev.Mode)
+		case "su.poke":
+			// the environment sets the device registers (a third party, or simply the state the fan is found in);
+			// the RPM register follows, as after every write event
+			f := suFans[a.str("fan", "f1")]
+			f.dev.Pwm = a.int("pwm", f.dev.Pwm)
+			f.dev.Mode = a.int("mode", f.dev.Mode)
+			f.dev.Rpm = f.rpmOf(f.dev.Pwm)
+			return "ok"
+		case "su.data":
+			// WHAT the analysis computed: the stored PWM map and RPM-curve data of the fan, read through the real
+			// persistence; the limits a fresh fan object derives from the stored curve (what the next `Run` does
+			// first: LoadFanPwmData + AttachFanRpmCurveData); the device registers
+			f := suFans[a.str("fan", "f1")]
+			p := persistence.NewPersistence(suDb)
+			fan := f.newFan()
+			rpm, e1 := p.LoadFanPwmData(fan)
+			m, e2 := p.LoadFanPwmMap(f.id)
+			ms, rs, lim := "nil", "nil", "-"
+			if e2 == nil {
+				ms = fmtIntMap(m)
+			}
+			if e1 == nil {
+				rs = fmtFloatMap(rpm)
+				if err := fan.AttachFanRpmCurveData(&rpm); err != nil {
+					lim = "err"
+				} else {
+					lim = fmt.Sprintf("%d/%d/%d", fan.GetMinPwm(), fan.GetStartPwm(), fan.GetMaxPwm())
+				}
+			}
+			return fmt.Sprintf("map=%s rpm=%s lim=%s reg=%d/%d/%d", ms, rs, lim, f.dev.Pwm, f.dev.Rpm, f.dev.Mode)
+		case "su.settle":
+			// the REAL waitForFanToSettle on a scripted RPM input: `rpms` = the values of the successive polls
+			// (`e` = a failing read), the last one repeated for ever; reports the number of polls (1 s sleeps)
+			f := suFans[a.str("fan", "f1")]
+			toks := strings.Split(a.str("rpms", "0"), ",")
+			idx := 0
+			apply := func() {
+				t := toks[len(toks)-1]
+				if idx < len(toks) {
+					t = toks[idx]
+				}
+				if t == "e" {
+					f.dev.RpmRead = verifhook.ReadErrOther
+				} else {
+					f.dev.RpmRead = verifhook.ReadOk
+					f.dev.Rpm, _ = strconv.Atoi(t)
+				}
+			}
+			oldThr := configuration.CurrentConfig.MaxRpmDiffForSettledFan
+			oldHook := verifhook.SleepHook
+			oldRpm, oldRead := f.dev.Rpm, f.dev.RpmRead
+			configuration.CurrentConfig.MaxRpmDiffForSettledFan = a.f64("thr", 20)
+			polls := 0
+			limit := a.int("limit", 200)
+			type settleHang struct{}
+			verifhook.SleepHook = func(d time.Duration) {
+				if polls >= limit {
+					panic(settleHang{})
+				}
+				apply()
+				idx++
+				polls++
+			}
+			curve := &suCurve{id: f.cfg.Curve, fan: f, done: make(chan struct{})}
+			curves.RegisterSpeedCurve(curve)
+			c := controller.NewFanController(persistence.NewPersistence(suDb), f.newFan(), control_loop.NewDirectControlLoop(nil), 2*time.Millisecond)
+			res := ""
+			func() {
+				defer func() {
+					if r := recover(); r != nil {
+						if _, ok := r.(settleHang); ok {
+							res = "hang"
+						} else {
+							res = "panic:" + panicClass(r)
+						}
+					}
+				}()
+				c.(*controller.DefaultFanController).VerifWaitForFanToSettle()
+				res = fmt.Sprintf("polls=%d", polls)
+			}()
+			configuration.CurrentConfig.MaxRpmDiffForSettledFan = oldThr
+			verifhook.SleepHook = oldHook
+			f.dev.Rpm, f.dev.RpmRead = oldRpm, oldRead
+			return res
 		case "su.reset":
 			f := suFans[a.str("fan", "f1")]
 			p := persistence.NewPersistence(suDb)
